@@ -182,20 +182,51 @@ def job_files(job):
     return out
 
 
+def prepare(seed, focus, root):
+    """the project pair, options, dry-run flag and selection of scenario `seed` (deterministic: a second call builds an identical pair)"""
+    rnd = random.Random(seed)
+    src, dst = build_pair(rnd, root)
+    o = gen_options(rnd)
+    dry = focus == "C15" and rnd.random() < 0.5
+    sel = None
+    if rnd.random() < 0.3:
+        ids = [j.id for j in src]
+        sel = rnd.sample(ids, rnd.randint(0, len(ids))) if ids else None
+    return src, dst, o, dry, sel
+
+
+PARALLEL_STATS = {"pairs_compared": 0}
+
+
+def parallel_equals_sequential(seed, focus, sequential_tree, sig):
+    """C15: the same sync with parallel=2 / parallel=True on an identically built pair gives the destination tree of the sequential run"""
+    for par in (2, True):
+        root2 = scratch_root()
+        try:
+            src2, dst2, o2, dry2, sel2 = prepare(seed, focus, root2)
+            kw = dict(strategy=o2["strategy"], exclude=o2["exclude"], doc_sync=o2["doc_sync"], selection=sel2, recursive=o2["recursive"], deep=o2["deep"], dry_run=False, check_schema=False)
+            try:
+                with contextlib.redirect_stdout(io.StringIO()):
+                    dst2.sync(src2, parallel=par, **kw)
+            except Exception as e:
+                return f"the sequential sync succeeded, the same sync with parallel={par!r} raised {type(e).__name__}: {e} (options {sig})"
+            tree = {k: (v[0] if v else v) for k, v in snapshot(dst2.path).items()}
+            if tree != sequential_tree:
+                changed = sorted(k for k in set(tree) | set(sequential_tree) if tree.get(k, "absent") != sequential_tree.get(k, "absent"))[:4]
+                return f"parallel={par!r} leaves a different destination tree than the sequential sync: {changed} (options {sig})"
+            PARALLEL_STATS["pairs_compared"] += 1
+        finally:
+            shutil.rmtree(root2, ignore_errors=True)
+    return None
+
+
 def scenario(seed, focus):
     """one project pair + options; returns (failure text or None, signature)"""
     import signac
     from signac.errors import DocumentSyncConflict, FileSyncConflict, SchemaSyncConflict
-    rnd = random.Random(seed)
     root = scratch_root()
     try:
-        src, dst = build_pair(rnd, root)
-        o = gen_options(rnd)
-        dry = focus == "C15" and rnd.random() < 0.5
-        sel = None
-        if rnd.random() < 0.3:
-            ids = [j.id for j in src]
-            sel = rnd.sample(ids, rnd.randint(0, len(ids))) if ids else None
+        src, dst, o, dry, sel = prepare(seed, focus, root)
         sig = (o["strategy_name"], o["doc_sync_name"], o["recursive"], o["exclude"], o["deep"], dry, sel is not None)
         pre_src, pre_dst = snapshot(src.path), snapshot(dst.path)
         src_jobs = {j.id: j for j in src}
@@ -305,6 +336,10 @@ def scenario(seed, focus):
                         jd = dst.open_job(id=i)
                         if job_files(jd).get(f, (None,))[0] != c:
                             return f"FileSyncConflict for {fn}, but the conflicting destination file {f} of job {i[:6]} was modified", sig
+        if err is None and focus == "C15" and seed % 2 == 0:
+            bad = parallel_equals_sequential(seed, focus, {k: (v[0] if v else v) for k, v in post_dst.items()}, sig)
+            if bad:
+                return bad, sig
         # idempotence of a successful sync
         if err is None:
             with contextlib.redirect_stdout(io.StringIO()):
@@ -344,4 +379,5 @@ def run_focus(focus, tier, seed, budget):
             "rule": "a case is one (project pair, option set) scenario; distinct by option signature",
             "scope": "project pairs over 4 state points (present in src / dst / both / none), 6 file names incl. nested directories, 3 contents, explicit mtimes, documents with flat / nested / "
                      "mixed-type conflicts; options: strategy in {None, always, never, update, custom}, doc_sync in {ByKey(), ByKey(fn), ByKey(regex), update, NO_SYNC, COPY}, recursive, exclude, "
-                     "deep, selection, dry_run (C15); checks: source unchanged, superset, destination-only data unchanged, overwrite iff strategy, roll-back on DocumentSyncConflict, idempotence, dry run changes nothing"}
+                     "deep, selection, dry_run (C15); checks: source unchanged, superset, destination-only data unchanged, overwrite iff strategy, roll-back on DocumentSyncConflict, idempotence, dry run changes nothing; C15: every second successful scenario is repeated on an identically built pair with parallel=2 and parallel=True "
+                     f"and must leave the sequential destination tree ({PARALLEL_STATS['pairs_compared']} comparisons in this run)"}
